@@ -830,13 +830,18 @@ def c18(res, tier, rng, wd):
         s["id"] = i
     res.samples += [{"tag": s["tag"], "first_steps": [json.dumps(x)[:140] for x in s["steps"][:4]]} for s in scs[:3]]
     report_e5(res, "C18", e5.check_scripts(res, scs, wd, "c18"))
+    # configuration passes through unchanged: the TLS client channel built by rodbus_client_channel_create_tls, judged by TlsAdmission.tla
+    run_e4(res, "C18", e4.gen_cabi_tls_client(rng, thorough), wd, "c18tlsclient")
     res.assumptions = E5_ASSUME
     return res.finish(rule="(1) all four write callbacks x WriteResult {success, every standard exception, raw codes} behind a C-ABI "
                            "server, observed by a raw TCP client; (2) 8 client operations x {genuine reply, exception replies with standard "
                            "and raw codes, malformed reply, wrong function, silence, connection loss, not connected, disabled, destroyed "
                            "channel} through rodbus_client_channel_* against a scripted peer: return code, wire bytes, the callback "
                            "invoked, its payload, and exactly one completion + one on_destroy per call; (3) argument errors (zero / "
-                           "overflowing ranges, over-limit counts, empty lists, null channel): the completion must still fire exactly once")
+                           "overflowing ranges, over-limit counts, empty lists, null channel): the completion must still fire exactly once; "
+                           "(4) TLS client configuration through the C ABI (dns_name x allow_server_name_wildcard x certificate mode x minimum "
+                           "version) against a rustls server peer presenting matching / other-name / other-CA / self-signed certificates: "
+                           "admission must be what TlsAdmission.tla prescribes for the equivalent Rust configuration")
 
 
 @check("C19")
